@@ -145,12 +145,17 @@ def to_tfrecord(saved_data_description: list[Attribute],
 
         # Set feature value
         if attribute.dtype in ["int8", "uint8", "int32", "int64"]:
+            if value.dtype.kind not in "iub":
+                # A float or string feature would be written and the shard
+                # could never be parsed as int64 again.
+                raise ValueError(f"Wrong dtype of {attribute.name}, expected "
+                                 f"an integer value, got: {value.dtype}.")
             feature[attribute.name] = int64_feature(values[attribute.name])
         elif attribute.dtype == "float16":
             value = value.astype(dtype=np.float16)
             feature[attribute.name] = bytes_feature(
                 [tf.io.serialize_tensor(value).numpy()])
-        elif attribute.dtype in ["float32", "float64"]:
+        elif attribute.dtype == "float32":
             feature[attribute.name] = float_feature(values[attribute.name])
         elif attribute.dtype == "str":
             feature[attribute.name] = bytes_feature(
